@@ -1,0 +1,47 @@
+//! Thin wrappers around crate-private pure functions, for external
+//! verification harnesses. Compiled only with the `verif-hooks` feature.
+#![allow(missing_docs, clippy::missing_panics_doc)]
+
+use ntex_bytes::{BytePages, BytesMut};
+use ntex_codec::Decoder;
+
+use crate::error::DecodeError;
+
+/// `utils::decode_variable_length`
+pub fn decode_variable_length(src: &[u8]) -> Result<Option<(u32, usize)>, DecodeError> {
+    crate::utils::decode_variable_length(src)
+}
+
+/// `utils::write_variable_length`, output as a plain vector
+pub fn write_variable_length(len: u32) -> Vec<u8> {
+    let mut buf = BytePages::default();
+    crate::utils::write_variable_length(len, &mut buf);
+    buf.freeze().as_ref().to_vec()
+}
+
+/// `v5::codec::encode::var_int_len`
+pub fn var_int_len(val: usize) -> u32 {
+    crate::v5::codec::verif_var_int_len(val)
+}
+
+/// `v5::codec::encode::var_int_len_from_size`
+pub fn var_int_len_from_size(val: u32) -> u32 {
+    crate::v5::codec::verif_var_int_len_from_size(val)
+}
+
+/// `topic::is_valid`
+pub fn topic_is_valid(topic: &str) -> bool {
+    crate::topic::is_valid(topic)
+}
+
+/// Protocol version sniffing codec: `Ok(Some(3 | 5))`, `Ok(None)` or error.
+pub fn sniff_version(src: &mut BytesMut) -> Result<Option<u8>, DecodeError> {
+    use crate::version::{ProtocolVersion, VersionCodec};
+
+    VersionCodec.decode(src).map(|v| {
+        v.map(|v| match v {
+            ProtocolVersion::MQTT3 => 3,
+            ProtocolVersion::MQTT5 => 5,
+        })
+    })
+}
